@@ -1,8 +1,10 @@
 """C15 hostile network input.  Wire.tla states, per class of input and connection phase, the reaction the property
 demands (node alive, no handler deadlocked, allocation <= one frame + c x bytes received, malformed closes / well-formed
-keeps); TLC enumerates every class sequence within the bounds; each sequence is instantiated as real bytes and sent to a
-REAL node (real p2p handshake and frame reader over net.Pipe feeding the real ProtocolManager, chain and stores) running in
-a sub-process; TraceWire.tla judges every logged step."""
+keeps); a connection is opened by the remote party (the node accepts and reads a handshake request) or by the node (it
+dials the remote party's listener, sends its request and reads the response); TLC enumerates every class sequence within
+the bounds; each sequence is instantiated as real bytes and sent to a REAL node (real p2p handshake of either side and
+frame reader over net.Pipe feeding the real ProtocolManager, chain and stores) running in a sub-process; TraceWire.tla
+judges every logged step."""
 import json, os, glob, re
 from vlib import Broken
 
@@ -10,17 +12,21 @@ LEVEL = "exploration"
 
 MANIFEST = dict(
     level="exploration",
-    text="TLC enumerates all sequences of input classes (152 classes: 18 pre-handshake, 17 raw/encrypted frame, 15 protocol-handshake and ~110 "
-         "message classes: every dispatched code x {good, empty, truncated, wrong type, garbage} plus decodable-but-absurd payloads incl. deputy-signed blocks and floods) "
-         "up to 2 (quick) / 3 (thorough) inputs per phase plus a reconnect probe after every closing input; every sequence is instantiated as real bytes (seeded "
-         "payloads and read splits) and replayed on a real node in a sub-process after a REAL handshake; exit status, connection state, "
+    text="TLC enumerates all sequences of input classes (~250 classes: 21 handshake-packet classes sent in both directions (framing, ECIES layer), 16 request "
+         "classes for the accepting node, 14 response classes for the DIALING node (off-curve / zero / foreign keys, nonce sizes, extra fields, echo), 17 raw/"
+         "encrypted frame, 19 protocol-handshake and ~170 message classes: every dispatched code x {good, empty, truncated, wrong type, garbage} plus "
+         "decodable-but-absurd payloads incl. absurd transactions, deputy-signed blocks, node strings and floods) up to 2 (quick) / 3 (thorough) inputs per phase "
+         "on an accepted connection and 1 / 2 on a dialed one, plus a reconnect probe after every closing input; every sequence is instantiated as real bytes "
+         "(seeded payloads and read splits) and replayed on a real node in a sub-process after a REAL handshake; exit status, connection state, "
          "lock-waiters in a consistent goroutine snapshot and TotalAlloc per step are judged by TLC against the trace spec.",
-    note="The node is assembled like main/node.New and the inbound connection handled like p2p.Server.HandleConn/run (Server itself needs a TCP "
-         "port). Classes, not all byte strings: within a class bytes are seeded (3 seeds in thorough). Quiescence is a stop-the-world goroutine "
+    note="The node is assembled like main/node.New; an inbound connection is handled like p2p.Server.listenLoop/HandleConn(fd, nil)/run, an outbound one like "
+         "DialManager.runDialTask/Server.HandleConn(fd, nodeID)/run to an address learnt through DiscoverManager.AddNewList, with an evil listener at the other "
+         "end of a net.Pipe (Server itself needs a TCP port). Classes, not all byte strings: within a class bytes are seeded (3 seeds in thorough). Quiescence is a stop-the-world goroutine "
          "snapshot with no runnable node goroutine, not a sleep. CPU exhaustion without allocation and retained (as opposed to allocated) memory are not judged.",
     technique="TLA+ model (Wire.tla) enumerated by TLC + replay of every behaviour on the real network stack in sub-processes + TLC trace validation (TraceWire.tla)")
 
-NEG = [("MCWire_neg1.cfg", "NodeAlive"), ("MCWire_neg2.cfg", "NoDeadlock"), ("MCWire_neg3.cfg", "AllocBounded"), ("MCWire_neg4.cfg", "AllocBounded")]
+# neg5: only dialed connections, the handshake-packet deviation on
+NEG = [("MCWire_neg1.cfg", "NodeAlive"), ("MCWire_neg5.cfg", "NodeAlive"), ("MCWire_neg2.cfg", "NoDeadlock"), ("MCWire_neg3.cfg", "AllocBounded"), ("MCWire_neg4.cfg", "AllocBounded")]
 
 
 def nontrivial(files):
@@ -59,7 +65,7 @@ def run(ctx):
         raise Broken("vacuity: actions never taken in the design run: %s" % r["zero_cov"])
     # negative controls: with a deviation on (the code as it is today) TLC must find the violated clause
     negs = {}
-    for c, inv in (NEG[:2] if ctx.quick() else NEG):
+    for c, inv in (NEG[:3] if ctx.quick() else NEG):
         neg = ctx.tlc("MCWire", c, timeout=300, expect_ok=False)
         negs[c] = neg["inv"]
         if neg["inv"] != inv:
@@ -87,10 +93,6 @@ def run(ctx):
         allfiles += f3
         # longer random walks in which every kept class carries on
         sim = ctx.tlc_simulate("MCWire", "MCWire_sim.cfg", num=800, depth=10, prefix="wiresim", timeout=300)
-        for f in glob.glob(sim):
-            # tla.LoadSim cuts the label at the LAST " line " and so keeps half of "line a, col b to line c, col d": normalise the location
-            txt = re.sub(r" line \d+, col \d+ to line \d+, col \d+ of module \w+>", " line 0>", open(f).read())
-            open(f, "w").write(txt)
         f4, s4 = ctx.replay("wire", sim=sim, shards=16, env=env, timeout=1500, name="wire.sim")
         ok = ctx.validate("TraceWire", "TraceWire.cfg", f4, what="simulated longer sequences", timeout=1500) and ok
         allfiles += f4
@@ -105,11 +107,14 @@ def run(ctx):
     ctx.extra["distinct_transitions_replayed"] = edges if ok else 0
     ctx.extra["transitions_in_graph"] = edges
     ctx.extra["max_alloc_bytes_per_byte_read_over_4KiB_inputs"] = round(ratio, 1)
-    ctx.extra["bounds"] = dict(max_inputs_per_phase=dict(PreHs=1, ProtoHs=1 if ctx.quick() else 2, Est=2 if ctx.quick() else 3), reconnect_probe_after_len=3,
+    ctx.extra["bounds"] = dict(max_inputs_per_phase=dict(accepted=dict(PreHs=1, ProtoHs=1 if ctx.quick() else 2, Est=2 if ctx.quick() else 3),
+                                                         dialed=dict(OutHs=1, ProtoHs=1 if ctx.quick() else 2, Est=1 if ctx.quick() else 2)),
+                               reconnect_probe_after_len=3, reconnect_direction="as the first connection (tree 1) / either (tree 2, simulation)",
                                alloc_bound="25 MiB (MaxPackageLength) + 16 MiB + 256 x KiB read in the step", quiescence_cap_ms=30000)
     ctx.assumptions += [
         "input space is partitioned into the classes of spec/WireClasses.tla; inside a class the bytes are seeded samples, not all byte strings",
-        "the node's side of a connection is driven like p2p.Server.HandleConn/run but over net.Pipe (Server needs a TCP port); one remote party at a time",
+        "the node's side of a connection is driven like p2p.Server.HandleConn/run (inbound) resp. DialManager.runDialTask + Server.HandleConn (outbound) but over net.Pipe (Server needs a TCP port); one remote party at a time",
+        "a remote party that stays silent (sends nothing, keeps the connection open) is not an input class: the handshake readers have no deadline, which is not judged",
         "allocation is runtime.MemStats.TotalAlloc of the whole node process during the step (harness overhead included, frames are built before the measurement)",
         "deadlock = a goroutine of the node waiting in sync.(*Mutex|*RWMutex).Lock in a stop-the-world snapshot in which no goroutine of the node can run",
     ]
